@@ -266,6 +266,7 @@ def check_c10(chk, args):
                     if N is not None and N <= ml and ml > 0:
                         chk.nontrivial((vi, N, out))
     none_is_unlimited(chk)
+    limits_from_defaults(chk, 'C10')
     # spec -> code: Printers.tla predicts the exact truncated text, '...and N more elements' comment included
     from checks import values_checks as VC
     VC.printers_binding(chk, vals, msls=(1, 1, 2, 3, 1000), name='truncation', per_value=2 if q else 4)
@@ -328,6 +329,39 @@ def none_is_unlimited(chk):
             chk.cov['evaluations'] += 2
             if out is not None and ref is not None and (out != ref or 'more elements' in out):
                 chk.violation('C10.none', 'an explicit max_seq_len=None fell back to the default limit 1: %r' % (out,), desc)
+    finally:
+        P._default_config = saved
+
+
+def limits_from_defaults(chk, prop):
+    """The limit may come from the session defaults instead of the call: after every set_default_config(<limit>=L) a
+    call that does not pass the limit must print what the call passing L explicitly prints - also when calls with
+    the same arguments were made under an earlier default - and an explicit None must still mean 'no limit'."""
+    key = 'max_seq_len' if prop == 'C10' else 'depth'
+    vals = [[1, 2, 3, 4, [5, 6, 7, (8, 9, 10)]], {'a': [1, 2, [3, [4, [5]]]], 'b': (1, 2, 3), 'c': {1, 2, 3}},
+            ([[[[1, 2], 3], 4], 5], {'k': {'k': {'k': [1, 2, 3]}}})]
+    saved = P._default_config
+    try:
+        P._default_config = dict(saved)
+        for L in (3, 1, 2, None, 1, 4, None, 2):
+            P.set_default_config(**{key: L})
+            for v in vals:
+                for cfg in ({}, {'width': 30}, {'width': 79, 'sort_dict_keys': True}):
+                    desc = {'value': repr(v), 'default ' + key: L, 'config': cfg}
+                    out = safe_print(chk, prop, v, desc, **cfg)
+                    ref = safe_print(chk, prop, v, dict(desc), **dict(cfg, **{key: L}))
+                    free = safe_print(chk, prop, v, dict(desc), **dict(cfg, **{key: None}))
+                    top = safe_print(chk, prop, v, dict(desc), **dict(cfg, **{key: 1000}))
+                    chk.cov['evaluations'] += 4
+                    if None in (out, ref, free, top):
+                        continue
+                    if out != ref:
+                        chk.violation(prop + '.default', 'after set_default_config(%s=%r) a call without %s prints %r, the call '
+                                      'passing %s=%r prints %r' % (key, L, key, out, key, L, ref), dict(desc, output=out, expected=ref))
+                    if free != top:
+                        chk.violation(prop + '.none', 'with the default %s=%r an explicit %s=None prints %r, a limit above every '
+                                      'size prints %r' % (key, L, key, free, top), dict(desc, output=free, expected=top))
+                    chk.nontrivial(('defaults', key, L, repr(v), repr(cfg)))
     finally:
         P._default_config = saved
 
@@ -397,6 +431,7 @@ def check_c11(chk, args):
     q = chk.tier == 'quick'
     rng = chk.rng
     deep = depth_none_is_unlimited(chk)
+    limits_from_defaults(chk, 'C11')
     vals = universe(chk, 150 if q else 3000, depth=4)
     cases = {}
     meta = {}
